@@ -47,6 +47,7 @@ type E2Params struct {
 	Foreign    bool     `json:"foreign"`     // offer foreign requests and ResetCollection (C17)
 	Tolerant   bool     `json:"tolerant"`    // request errors are outcomes, not violations (fault enumeration)
 	Patches    []string `json:"patches"`     // REST PatchDocument targets offered as actions (C19)
+	Readers    int      `json:"readers"`     // read-only pulls offered per history (from checkpoint 0 and from the end of the log)
 }
 
 type e2dt struct {
@@ -73,6 +74,7 @@ type heldResp struct {
 }
 
 type e2Machine struct {
+	nreader  int
 	nreset   int
 	nforeign int
 	dead     map[int]bool // clients whose collection was reset (they would have to reconnect)
@@ -237,6 +239,18 @@ func (m *e2Machine) Enabled() []pt.Action {
 					for _, bits := range []int{0, 1, 2, 3} {
 						as = append(as, pt.Action{Op: "foreign", R: c.idx, T: k, K: "duid", P: bits})
 					}
+				}
+			}
+		}
+	}
+	if m.nreader < m.p.Readers {
+		for _, c := range m.cls {
+			if m.dead[c.idx] {
+				continue
+			}
+			for _, k := range m.p.Keys {
+				if d, ok := c.dts[k]; ok && d.rep.dt.GetState() == model.StateOfDatatype_SUBSCRIBED {
+					as = append(as, pt.Action{Op: "ropull", R: c.idx, T: k, P: 0}, pt.Action{Op: "ropull", R: c.idx, T: k, P: 1})
 				}
 			}
 		}
@@ -437,6 +451,11 @@ func (m *e2Machine) Apply(a pt.Action) (v *pt.Violation) {
 	case "foreign":
 		m.nforeign++
 		return m.foreignRequest(c, a)
+	case "ropull":
+		m.nreader++
+		if v := m.readOnlyPull(c, a); v != nil {
+			return v
+		}
 	case "patch":
 		var resp *model.PatchMessage
 		var err error
@@ -836,7 +855,7 @@ func (m *e2Machine) checkNotify(a pt.Action, pubsBefore int, opsBefore map[strin
 
 func (m *e2Machine) Key() (string, bool) {
 	h := sha256.New()
-	fmt.Fprintf(h, "DB\n%s\nF%d\n", m.sys.DB.Dump(), m.nfault)
+	fmt.Fprintf(h, "DB\n%s\nF%d\nR%d\n", m.sys.DB.Dump(), m.nfault, m.nreader)
 	for i := 0; i < len(m.cls); i++ {
 		for _, hr := range m.held[i] {
 			b, _ := proto.Marshal(hr.pack)
@@ -1253,6 +1272,66 @@ func (m *e2Machine) foreignRequest(c *e2client, a pt.Action) *pt.Violation {
 	}
 	if a.K == "collection" && err == nil {
 		return viol("C17:foreign-collection-accepted", "%s: a request naming collection %q by a client registered in %q was not refused", a, other, c.coll)
+	}
+	return nil
+}
+
+// readOnlyPull sends a request with the read-only option and no operations for datatype a.T in the name
+// of client c (a reader following the datatype), from checkpoint 0 (a.P == 0) or from the end of the
+// log (a.P == 1): it must be answered with exactly the stored operations behind the checkpoint.
+func (m *e2Machine) readOnlyPull(c *e2client, a pt.Action) *pt.Violation {
+	d := c.dts[a.T]
+	var st *storedDT
+	for _, s := range m.readStore() {
+		if s.duid == d.rep.dt.GetDUID() {
+			st = s
+		}
+	}
+	if st == nil {
+		m.last = "ropull: not stored"
+		return nil
+	}
+	from := uint64(0)
+	if a.P == 1 {
+		from = st.end
+	}
+	own := d.rep.dt.CreatePushPullPack()
+	opt := model.PushPullBitNormal
+	pack := &model.PushPullPack{Key: a.T, DUID: st.duid, Type: own.Type, Era: own.Era, Option: uint32(*opt.SetReadOnlyBit()),
+		CheckPoint: &model.CheckPoint{Sseq: from}}
+	req := model.NewPushPullMessage(0, &model.Client{CUID: c.cuid, Collection: c.coll}, pack)
+	var resp *model.PushPullMessage
+	var err error
+	if !callWithDeadline(func() {
+		ctx, cancel := gocontext.WithCancel(gocontext.Background())
+		defer cancel()
+		b, _ := proto.Marshal(req)
+		var in model.PushPullMessage
+		proto.Unmarshal(b, &in)
+		resp, err = m.sys.Svc().ProcessPushPull(ctx, &in)
+	}) {
+		exitWith(viol("C16:request-never-answered:ropull", "read-only pull %s never returned", a))
+	}
+	m.drain()
+	m.last = fmt.Sprintf("ropull from=%d err=%v", from, err != nil)
+	if err != nil || resp == nil || len(resp.PushPullPacks) != 1 {
+		if m.p.Tolerant {
+			return nil
+		}
+		return viol("C06:read-only-pull-refused", "%s: %v", a, err)
+	}
+	pk := resp.PushPullPacks[0]
+	if pk.GetPushPullPackOption().HasErrorBit() {
+		if m.p.Tolerant {
+			return nil
+		}
+		return viol("C06:read-only-pull-refused", "%s answered with an error pack", a)
+	}
+	if uint64(len(pk.Operations)) != st.end-from {
+		return viol("C06:read-only-pull-incomplete", "%s from checkpoint %d of a log ending at %d returned %d operations", a, from, st.end, len(pk.Operations))
+	}
+	if pk.CheckPoint == nil || pk.CheckPoint.Sseq != st.end {
+		return viol("C06:read-only-pull-checkpoint", "%s from checkpoint %d of a log ending at %d answered checkpoint %v", a, from, st.end, pk.CheckPoint)
 	}
 	return nil
 }
